@@ -42,8 +42,8 @@ var (
 	TStr  = &Ty{K: KStr}
 )
 
-func PtrTo(t *Ty) *Ty   { return &Ty{K: KPtr, Elem: t} }
-func SliceOf(t *Ty) *Ty { return &Ty{K: KSlice, Elem: t} }
+func PtrTo(t *Ty) *Ty    { return &Ty{K: KPtr, Elem: t} }
+func SliceOf(t *Ty) *Ty  { return &Ty{K: KSlice, Elem: t} }
 func MapOf(k, v *Ty) *Ty { return &Ty{K: KMap, Key: k, Elem: v} }
 
 // Go renders the type in Go syntax.
